@@ -6,8 +6,11 @@ P_ExtMark == <<255, 65535>>
 P_TsPoolA == { <<0,0>>, <<0,1>>, <<255,65534>>, <<255,65535>>, <<256,0>>, <<65535,65535>> }
 P_TsPoolB == { <<0,0>>, <<0,40>>, <<255,65535>>, <<256,1>>, <<32768,0>>, <<65535,65500>> }
 P_TsPoolC == { <<0,0>>, <<255,65535>>, <<256,1>>, <<65535,65500>> }
-P_Agg1 == { << [type |-> 8, len |-> 3, dts |-> 0], [type |-> 9, len |-> 0, dts |-> 23] >>,
-            << [type |-> 9, len |-> 5, dts |-> 0] >> }
+\* sid: the stream id written in the sub-message header (0: the aggregate's own).  RTMP 1.0
+\* 6.1.1: the stream id of the aggregate overrides those of its sub-messages.
+P_Agg1 == { << [type |-> 8, len |-> 3, dts |-> 0, sid |-> 0], [type |-> 9, len |-> 0, dts |-> 23, sid |-> 0] >>,
+            << [type |-> 9, len |-> 5, dts |-> 0, sid |-> 0] >>,
+            << [type |-> 9, len |-> 2, dts |-> 0, sid |-> 7], [type |-> 8, len |-> 1, dts |-> 5, sid |-> 0] >> }
 NoAgg == {}
 
 \* ---- scaled constants (LimbB = 4: timestamps 0..15, ExtMark = 7): whole ranges
